@@ -349,6 +349,7 @@ macro_rules! glue {
             match $crate::trace::decide(l, rule, default) {
                 1 => l.continue_(),
                 2 => { l.reset_match(); l.continue_() }
+                251 => { l.reset_match(); l.return_(rule) }
                 _ => l.return_(rule),
             }
         }
@@ -360,6 +361,7 @@ macro_rules! glue {
                 1 => l.continue_(),
                 2 => { l.reset_match(); l.continue_() }
                 250 => l.return_(Err(1000 + rule as u32)),
+                251 => { l.reset_match(); l.return_(Ok(rule)) }
                 _ => l.return_(Ok(rule)),
             }
         }
@@ -374,6 +376,7 @@ macro_rules! glue {
             match $crate::trace::decide(l, rule, default) {
                 1 => l.continue_(),
                 2 => { l.reset_match(); l.continue_() }
+                251 => { l.reset_match(); l.return_(rule) }
                 d if d >= 3 && d < 200 && d % 2 == 1 => l.switch(rs((d - 3) / 2)),
                 d if d >= 4 && d < 200 => l.switch_and_return(rs((d - 4) / 2), rule),
                 _ => l.return_(rule),
@@ -387,6 +390,7 @@ macro_rules! glue {
                 1 => l.continue_(),
                 2 => { l.reset_match(); l.continue_() }
                 250 => l.return_(Err(1000 + rule as u32)),
+                251 => { l.reset_match(); l.return_(Ok(rule)) }
                 d if d >= 3 && d < 200 && d % 2 == 1 => l.switch(rs((d - 3) / 2)),
                 d if d >= 4 && d < 200 => l.switch_and_return(rs((d - 4) / 2), Ok(rule)),
                 _ => l.return_(Ok(rule)),
